@@ -40,15 +40,18 @@ func openHist(filename string) (list []Item, err error) {
 		return list, err
 	}
 
-	scanner := bufio.NewScanner(file)
-	for scanner.Scan() {
+	// not bufio.Scanner: it gives up for good at the first line longer than 64 KiB
+	reader := bufio.NewReader(file)
+	for {
+		b, rerr := reader.ReadBytes('\n')
 		var item Item
-		err := json.Unmarshal(scanner.Bytes(), &item)
-		if err != nil || len(item.Block) == 0 {
-			continue
+		if json.Unmarshal(b, &item) == nil && len(item.Block) != 0 {
+			item.Index = len(list)
+			list = append(list, item)
 		}
-		item.Index = len(list)
-		list = append(list, item)
+		if rerr != nil {
+			break
+		}
 	}
 
 	file.Close()
